@@ -47,7 +47,7 @@ def generate(rng, tier):
            {"t": 0.0, "op": "peer", "p": "Q", "ip": "10.0.0.9", "ports": [5353, 5354]}]
     t = 0.05
     state = {}  # name -> svc (generator's own view, only to aim queries)
-    nops = rng.choice([3, 5, 8, 12])
+    nops = rng.choice([3, 5, 8, 12] + ([16, 24, 40] if tier == "thorough" else []))
     qid = 1
     for _ in range(nops):
         k = rng.random()
